@@ -18,7 +18,7 @@ if not NATIVE:
 from insights.core import dr, plugins  # noqa: E402
 from insights.core import spec_factory as sf  # noqa: E402
 from insights.core.context import ExecutionContext  # noqa: E402
-from insights.core.exceptions import SkipComponent, ContentException  # noqa: E402
+from insights.core.exceptions import SkipComponent, ContentException, CalledProcessError, TimeoutException  # noqa: E402
 
 if not NATIVE:
     from symx import core, sandbox, oset
@@ -41,6 +41,18 @@ CTX = {"A": CtxA, "B": CtxB}
 # how an implementation is bound to execution contexts
 BINDINGS = ["A", "B", "A|B", "via-A", "via-B", "via-A|B", "A+via-B", "free"]      # "free": bound to no context at all
 OUTCOMES = ["value", "content_error", "skip", "none"]
+
+
+ERROR_KINDS = ["content_error", "command_error", "timeout_error"]     # the three failures a datasource turns into "no content"
+
+
+def pick_outcome(en, i, chosen):
+    oc = OUTCOMES[en.choice("outcome%d" % i, len(OUTCOMES))]
+    if oc == "content_error":
+        # one kind of failure per world (chosen when the first implementation fails)
+        prev = [o for o in chosen.values() if o in ERROR_KINDS]
+        oc = prev[0] if prev else ERROR_KINDS[en.choice("errkind", len(ERROR_KINDS))]
+    return oc
 
 
 def contexts_of(binding):
@@ -106,6 +118,10 @@ class World(object):
                     return value_of(_i)
                 if oc == "content_error":
                     raise ContentException("nothing")
+                if oc == "command_error":
+                    raise CalledProcessError(1, "cmd", "failed")
+                if oc == "timeout_error":
+                    raise TimeoutException("timed out")
                 if oc == "skip":
                     raise SkipComponent()
                 return None
@@ -196,7 +212,7 @@ def make_o1(k, pool=None, nested=False):
 
             def outcome_of(i):
                 if i not in chosen:
-                    chosen[i] = OUTCOMES[en.choice("outcome%d" % i, len(OUTCOMES))]
+                    chosen[i] = pick_outcome(en, i, chosen)
                 return chosen[i]
             vals = {}
 
@@ -238,7 +254,7 @@ def make_o2(k):
 
             def outcome_of(i):
                 if i not in chosen:
-                    chosen[i] = OUTCOMES[en.choice("outcome%d" % i, len(OUTCOMES))]
+                    chosen[i] = pick_outcome(en, i, chosen)
                 return chosen[i]
             vals = {}
             cnt = [0]
@@ -287,18 +303,18 @@ def obligations(tier):
            plugins.datasource.invoke, dr.walk_tree]
     return [Obligation("O1-override", make_o1(k), ["latest-wins"],
                        desc="registration histories of <= %d implementations of one registry point, each bound to contexts A/B directly, as an at-least-one list, through an intermediate datasource, or mixed" % k,
-                       bounds={"implementations": k, "bindings": BINDINGS[:7], "active context": ["A", "B"], "outcomes": OUTCOMES,
+                       bounds={"implementations": k, "bindings": BINDINGS[:7], "active context": ["A", "B"], "outcomes": OUTCOMES[:1] + ERROR_KINDS + OUTCOMES[2:],
                                "values": "unconstrained symbolic ints", "set order": "every global order"},
                        outside=["the ~1000 shipped spec entries are instances of the mechanism and are not re-verified one by one",
                                 "implementations that subclass another implementation class instead of the registry class"],
                        encoded=enc, budget_s=900 if thorough else 120, replay="override", check_sample=True),
             Obligation("O3-free-and-nested", make_o1(3 if thorough else 2, ["A", "via-A", "A|B", "B", "free"], True), ["latest-wins"],
                        desc="implementations bound to no context at all (they cannot be switched off by context: the latest one that left a result supplies the spec) and a nested registry that declares the point again (overriding works by name across both levels; the nested point is the top-level point's oldest implementation)",
-                       bounds={"implementations": 3 if thorough else 2, "bindings": ["A", "via-A", "A|B", "B", "free"], "registered in": "the top registry or the nested one, per implementation", "outcomes": OUTCOMES, "set order": "every global order"},
+                       bounds={"implementations": 3 if thorough else 2, "bindings": ["A", "via-A", "A|B", "B", "free"], "registered in": "the top registry or the nested one, per implementation", "outcomes": OUTCOMES[:1] + ERROR_KINDS + OUTCOMES[2:], "set order": "every global order"},
                        encoded=enc, budget_s=900 if thorough else 120, replay="override", check_sample=True),
             Obligation("O2-interleaved", make_o2(3 if thorough else 2), ["latest-wins"],
                        desc="registrations interleaved with evaluations: the registry point may be evaluated after any registration (a spec set loaded after an earlier evaluation in the same process); every evaluation is judged against the implementations registered so far",
-                       bounds={"implementations": 3 if thorough else 2, "bindings": BINDINGS, "active context": ["A", "B"], "outcomes": OUTCOMES,
+                       bounds={"implementations": 3 if thorough else 2, "bindings": BINDINGS, "active context": ["A", "B"], "outcomes": OUTCOMES[:1] + ERROR_KINDS + OUTCOMES[2:],
                                "evaluation points": "after any subset of the registrations, always after the last", "set order": "every global order"},
                        outside=["registrations while an evaluation is in progress"],
                        encoded=enc, budget_s=900 if thorough else 120, replay="override", check_sample=True)]
